@@ -604,6 +604,7 @@ func (l *commitLog) Truncate(offset int64) error {
 				if err := newSegment.WriteMessageSet(ms, []*entry{e}); err != nil {
 					return err
 				}
+				verifCrashPoint("truncate.after_write_truncated")
 			} else {
 				break
 			}
